@@ -25,6 +25,11 @@ func judgeC06(c *StopCase, o *StopObs) error {
 		return nil
 	case "unsupported", "invalid", "undecodable":
 		// a cancelled parser may legitimately stop before it reads the offending event
+		if rowsQueryFault(c.Fault) && o.StreamErr == nil && !o.CallerCancelled && o.Delivered == o.TotalTx && first == nil {
+			// the replica skipped the informational event and went on to the master's EOF with everything
+			// delivered: nothing failed, so there is nothing to report (had it stopped there, deliveries would be missing)
+			return nil
+		}
 		if o.CauseFired && o.StreamErr == nil && !o.CallerCancelled {
 			return fmt.Errorf("cause %s reached the library but Stream returned nil (Error() = %v)", k, first)
 		}
